@@ -44,6 +44,13 @@ void h_parse_authority(void) {
 #define VIEW_KEPT(f) (u.f.ptr == u0.f.ptr && u.f.len == u0.f.len)
 #define SEARCH_IS(k, ch, off, n) (g_mc[k].c == (ch) && g_mc[k].s == text + (off) && g_mc[k].len == (n))
 #define CHECK(cond, msg) __CPROVER_assert(cond, msg)
+/* replay variables (DESIGN 3.5): length of the text, the logged searches (character, result) and the ghost outcome of the
+ * number parser; plain copies made right after the call, read back from the counterexample trace and handed to
+ * replay/uri_replay.c (which rebuilds a text with exactly these first occurrences); no part in any obligation */
+size_t r_n, r_mcn, r_mcr0, r_mcr1, r_mcr2, r_mcr3, r_mcr4, r_mcr5;
+uint8_t r_mcc0, r_mcc1, r_mcc2, r_mcc3, r_mcc4, r_mcc5;
+bool r_pu_ok;
+uint64_t r_pu_val;
 void h_parse_authority_exact(void) {
     GHOSTS_P();
     size_t n = nondet_size_t();
@@ -60,6 +67,9 @@ void h_parse_authority_exact(void) {
 
     s_parse_authority(&p, &str);
 
+    r_n = n; r_mcn = g_mc_n; r_pu_ok = g_pu.ok; r_pu_val = g_pu.val;
+    r_mcc0 = g_mc[0].c; r_mcr0 = g_mc[0].res; r_mcc1 = g_mc[1].c; r_mcr1 = g_mc[1].res; r_mcc2 = g_mc[2].c; r_mcr2 = g_mc[2].res;
+    r_mcc3 = g_mc[3].c; r_mcr3 = g_mc[3].res; r_mcc4 = g_mc[4].c; r_mcr4 = g_mc[4].res; r_mcc5 = g_mc[5].c; r_mcr5 = g_mc[5].res;
     int raised = g_raise_count - raise0;
     bool err = p.state == ERROR;
     /* frame: nothing but the authority-related fields */
